@@ -29,6 +29,15 @@ real code, against a boring reference model (plain Python: controller name -> in
                 object, sets of such objects (size, equality with the product, iteration over them and over
                 every pair) and every operator applied to them must agree with the reference model of the LAST
                 assignment.
+ part 'containers' (tasks of the parts static / ops / hidden / chains carrying `names_as`): the same exploration on
+                the structures with hand-written catalogs, every catalog now governed by an explicitly declared
+                Controller whose specification names are handed over in EVERY kind of iterable the signature
+                (Iterable[str]) admits: list, tuple, dict keys view, a re-iterable object without __len__, a
+                generator, a map object, a list iterator, an itertools.chain, a hand-written one-shot iterator
+                (thorough: also mixed kinds within one formula, and the K-structures with only the shared
+                controller declared that way).  The reference model does not know about containers: the space,
+                identifiers, iteration, selection, values and operators must be those of the names listed.
+                Configuration(...) is likewise built from every such kind of iterable of SelectionTuples.
 """
 from __future__ import annotations
 
@@ -103,6 +112,85 @@ def alphabet(seed):
         dict(c1='b', c2='a', c3='c', K='a b', m=['b', 'a', 'c', 'generic'], G='altspec', GA='generic', GB='x_y'),
     ][k]
     return dict(rows=rows, betas=betas, names=names, k=k)
+
+
+# =========================================================================== kinds of iterables (reference side)
+# every kind of object that is an Iterable[...] of the listed items, in the listed order
+NAME_CONTAINERS = ('list', 'tuple', 'dict_keys', 'reiterable', 'generator', 'map', 'iterator', 'chain', 'once')
+ONE_SHOT = ('generator', 'map', 'iterator', 'chain', 'once')
+
+
+class _ReIterable:
+    """Iterable only: no __len__, no __getitem__; every iter() starts again."""
+
+    def __init__(self, items):
+        self._items = list(items)
+
+    def __iter__(self):
+        return iter(list(self._items))
+
+
+class _Once:
+    """A hand-written one-shot iterator (its own iterator; exhausted after one pass)."""
+
+    def __init__(self, items):
+        self._items = list(items)
+        self._i = 0
+
+    def __iter__(self):
+        return self
+
+    def __next__(self):
+        if self._i >= len(self._items):
+            raise StopIteration
+        self._i += 1
+        return self._items[self._i - 1]
+
+
+def as_container(kind, items):
+    items = list(items)
+    if kind == 'list':
+        return list(items)
+    if kind == 'tuple':
+        return tuple(items)
+    if kind == 'dict_keys':
+        return {it: None for it in items}.keys()
+    if kind == 'reiterable':
+        return _ReIterable(items)
+    if kind == 'generator':
+        return (it for it in items)
+    if kind == 'map':
+        return map(lambda it: it, items)
+    if kind == 'iterator':
+        return iter(items)
+    if kind == 'chain':
+        h = len(items) // 2
+        return itertools.chain(items[:h], items[h:])
+    if kind == 'once':
+        return _Once(items)
+    raise KeyError(kind)
+
+
+def container_kind(names_as, j):
+    """Kind of iterable used for the j-th explicitly declared controller: a kind, or 'mix<k>' = the kinds in
+    rotation starting at #k."""
+    if names_as.startswith('mix'):
+        return NAME_CONTAINERS[(j + int(names_as[3:])) % len(NAME_CONTAINERS)]
+    return names_as
+
+
+def has_handwritten_catalog(st):
+    found = []
+
+    def walk(t):
+        if isinstance(t, (tuple, list)):
+            if isinstance(t, tuple) and t and t[0] == 'cat':
+                found.append(t[1])
+            for a in t:
+                walk(a)
+
+    walk(st['term'])
+    return bool(found)
 
 
 # =========================================================================== term language (reference side)
@@ -748,6 +836,11 @@ class Built:
         self.controllers = {}   # explicit Controller objects by name
         self.helper_objs = []
         self._Catalog, self._Named, self._Controller = Catalog, NamedExpression, Controller
+        # how the specification names of explicitly declared controllers are handed over (None: a list, and only the
+        # controllers the description names are declared explicitly); explicit: every hand-written catalog is governed
+        # by an explicitly declared Controller named like the catalog (the same space for the reference model)
+        self.names_as = st.get('names_as')
+        self.explicit = bool(st.get('explicit'))
         if choice is None:
             for h in st['helpers']:
                 betas = [self.build(b) for b in h['betas']]
@@ -799,12 +892,16 @@ class Built:
                 return self.catalogs[t[1]][0]
             members = [self._Named(name=mn, expression=self.build(mt)) for mn, mt in t[3]]
             ctrl = None
-            if t[2] is not None:
-                if t[2] not in self.controllers:
-                    self.controllers[t[2]] = self._Controller(t[2], [mn for mn, _ in t[3]])
-                ctrl = self.controllers[t[2]]
+            cname = t[2] if t[2] is not None else (t[1] if self.explicit else None)
+            if cname is not None:
+                if cname not in self.controllers:
+                    kind = container_kind(self.names_as or 'list', len(self.controllers))
+                    self.controllers[cname] = self._Controller(cname, as_container(kind, [mn for mn, _ in t[3]]))
+                ctrl = self.controllers[cname]
             if ctrl is None and len(self.catalogs) % 2 == 1:
                 c = self._Catalog.from_dict(t[1], {mn.name: mn.expression for mn in members})
+            elif ctrl is not None and self.explicit and len(self.catalogs) % 2 == 1:
+                c = self._Catalog.from_dict(t[1], {mn.name: mn.expression for mn in members}, controlled_by=ctrl)
             else:
                 c = self._Catalog(t[1], members, controlled_by=ctrl)
             self.catalogs[t[1]] = (c, t[2] if t[2] is not None else t[1])
@@ -1091,23 +1188,95 @@ def tasks(tier, seed):
         t.append(dict(part='confobj', st=st['name'], seed=seed, tier=tier, kinds=list(CONF_DEEP_STARTS), depth=2))
         if tier == 'thorough' and RefSpace(st).size() <= 6:
             t.append(dict(part='confobj', st=st['name'], seed=seed, tier=tier, kinds=list(CONF_DEEP_STARTS), depth=3))
+    # 'containers': explicitly declared controllers, their names handed over in every kind of iterable
+    t += container_tasks(tier, seed, sts)
     return t
 
 
+def container_variants(tier, st):
+    """(names_as, explicit) variants of one structure.  explicit=True: every hand-written catalog under an explicitly
+    declared controller; explicit=False (only for structures that name a shared controller): the description as it is,
+    only the shared controller declared with that kind of iterable."""
+    out = [(kind, True) for kind in NAME_CONTAINERS]
+    if tier == 'thorough':
+        out += [(f'mix{k}', True) for k in range(1, len(NAME_CONTAINERS))]
+        if '_shared_controller' in st:
+            out += [(kind, False) for kind in NAME_CONTAINERS if kind != 'list']
+    return out
+
+
+def container_tasks(tier, seed, sts):
+    t = []
+    elig = []
+    for st in sts:
+        if has_handwritten_catalog(st):
+            st = dict(st)
+            if any(c not in _catalog_names(st) for c in controllers_of(st)):
+                st['_shared_controller'] = True
+            elig.append(st)
+    for part in ('static', 'ops', 'hidden', 'chains'):
+        for st in elig:
+            sp = RefSpace(st)
+            ids = sp.all_ids()
+            for names_as, explicit in container_variants(tier, st):
+                base = dict(part=part, st=st['name'], seed=seed, tier=tier, names_as=names_as, explicit=explicit)
+                if part == 'static':
+                    t.append(base)
+                elif part == 'ops':
+                    if st['big'] and tier != 'thorough':
+                        continue
+                    per = 2 if len(sp.names) >= 3 else 4
+                    for i in range(0, len(ids), per):
+                        t.append(dict(base, starts=ids[i:i + per]))
+                elif part == 'hidden':
+                    if tier == 'thorough' or (not st['big'] and names_as in ONE_SHOT):
+                        t.append(base)
+                elif part == 'chains' and tier == 'thorough' and not st['big'] and not names_as.startswith('mix'):
+                    for cid in ids:
+                        t.append(dict(base, start=cid, depth=2, steps=[1, 2]))
+    return t
+
+
+def _catalog_names(st):
+    out = set()
+
+    def walk(t):
+        if isinstance(t, (tuple, list)):
+            if isinstance(t, tuple) and t and t[0] == 'cat':
+                out.add(t[1])
+            for a in t:
+                walk(a)
+
+    walk(st['term'])
+    return out
+
+
 def run_task(task, _raw=False):
-    rec = Rec()
+    variant = task.get('names_as') is not None
+    rec = _TaggedRec(('containers', task['names_as'], bool(task.get('explicit')))) if variant else Rec()
     patch_random()
     try:
         st = get_structure(task['seed'], task['st'])
+        if variant:
+            st = dict(st, names_as=task['names_as'], explicit=bool(task.get('explicit')))
         space = RefSpace(st)
         case = {k: v for k, v in task.items() if k != 'fresh'}
+        # what the finding key names: the structure; for the 'containers' variants the kind of iterable the controller
+        # names were given as (the behaviour of a Controller does not depend on the formula around it)
+        where = st['name']
+        label = st['name']
+        if variant:
+            kind = 'mixed-kinds' if task['names_as'].startswith('mix') else task['names_as']
+            where = f'controller-names-given-as-{kind}'
+            label = f'{st["name"]}, controllers declared explicitly with their names as {task["names_as"]}' + \
+                ('' if task.get('explicit') else ' (shared controller only)')
 
         def vio_factory(witness_prefix):
             def vio(clause, what, expected=None, observed=None, witness=None):
                 # finding key: clause + structure (+ operator kind for clauses about an operator's result)
                 prefix = '' if clause in STATE_CLAUSES else witness_prefix
-                key = f'C16|{clause}|{st["name"]}' + (f':{witness}' if witness else (f':{prefix}' if prefix else ''))
-                rec.violation(key, f'[{st["name"]}, seed {task["seed"]}] {what}', dict(case, key=key),
+                key = f'C16|{clause}|{where}' + (f':{witness}' if witness else (f':{prefix}' if prefix else ''))
+                rec.violation(key, f'[{label}, seed {task["seed"]}] {what}', dict(case, key=key),
                               expected=expected, observed=observed)
             return vio
 
@@ -1137,6 +1306,17 @@ def run_task(task, _raw=False):
     finally:
         unpatch_random()
     return rec if _raw else rec.result()
+
+
+class _TaggedRec(Rec):
+    """Recorder of a variant task: the same keys as the base exploration, made distinct by the variant."""
+
+    def __init__(self, tag):
+        super().__init__()
+        self._tag = tag
+
+    def case(self, nontrivial_key=None, observation=None, outcome=None):
+        super().case(None if nontrivial_key is None else (self._tag, nontrivial_key), observation, outcome)
 
 
 # --------------------------------------------------------------------------- part 'static'
@@ -1211,6 +1391,15 @@ def _static(task, st, space, rec, vio):
             c_str = Configuration.from_string(SEP.join(f'{c}{SELSEP}{s}' for c, s in perm))
             got = [c_list.get_string_id(), c_gen.get_string_id(), c_dict.get_string_id(), c_str.get_string_id(),
                    c_list.string_id, str(c_list)]
+            # Configuration(selections: Iterable[SelectionTuple]): every kind of iterable
+            for kind in NAME_CONTAINERS:
+                c_k = Configuration(as_container(kind, [SelectionTuple(controller=c, selection=s) for c, s in perm]))
+                got += [c_k.get_string_id(), c_k.string_id]
+                if not (c_k == c_list and c_list == c_k and hash(c_k) == hash(c_list)) or \
+                        [tuple(s_) for s_ in c_k.selections] != [tuple(s_) for s_ in c_list.selections]:
+                    vio('equal-configurations-compare-or-hash-unequal',
+                        f'{perm} given as {kind}: {c_k.selections} vs given as a list {c_list.selections}', None, None,
+                        witness=f'Configuration-from-{kind}')
             rec.case(nontriv, (cid, pi, got), outcome=('id', len(set(got))))
             if any(g != cid for g in got):
                 vio('identifier-depends-on-listing-order-or-is-not-canonical',
